@@ -364,7 +364,9 @@ def check(pid, spec, tier, seed, replay, t0):
             needs = [n for n, f in facts.items() if f["module"] == mod and n.startswith(("skel_", "lit_"))]
         unrec = [n for n in needs if n not in facts or facts[n]["value"] == ""]
         if unrec:
-            obligations.append({"name": ob["name"], "status": "not-checked", "detail": "source shape not recognised for " + ",".join(unrec)})
+            # the fact could not be read off the source any more: the obligation is not discharged
+            obligations.append({"name": ob["name"], "status": "broken", "detail": "source shape not recognised for " + ",".join(unrec)})
+            broken.append(ob)
             continue
         ok, log = lake_build(["Sidetree.Obligations." + ob["name"]])
         if ok:
